@@ -6,7 +6,7 @@ for d in seeded/*/; do
   id=$(basename $d)
   [ "$id" = "own" ] && continue
   prop=$(python3 -c "import json;print(json.load(open('$d/meta.json'))['property'])")
-  out=$(tools/try_mutant_sandbox.sh /verif/$d/patch.diff $prop quick 2>&1)
+  pf=/verif/$d/patch.diff; [ -f /verif/$d/patch.rebased.diff ] && pf=/verif/$d/patch.rebased.diff; out=$(tools/try_mutant_sandbox.sh $pf $prop quick 2>&1)
   if echo "$out" | grep -q "^VIOLATION"; then echo "$id $prop CAUGHT $(echo "$out" | grep '^simc: [A-Z]*|' | head -1 | cut -c7-90)";
   elif echo "$out" | grep -q "HARNESS\|build failed\|does not apply"; then echo "$id $prop ERROR $(echo "$out" | grep 'HARNESS\|build failed\|does not apply' | head -1 | cut -c1-120)";
   else echo "$id $prop MISSED"; fi
